@@ -54,6 +54,7 @@ def run_case(case, ctx):
     ref.initialize()
     ref.run()
     h = Harness(prog)
+    nb = None
     try:
         if case.get("torn_down"):
             ctx.count("runs_on_a_torn_down_and_reused_simulator")
@@ -65,6 +66,10 @@ def run_case(case, ctx):
         out = h.cmd("initialize")
         if out != "ok":
             ctx.viol(f"initialize-raises:{out}", where)
+            return
+        if h.initial_methods_run != (1 if prog.get("initial") else 0):
+            # (many simulators have lived in this process before this one: only the model's own initial method runs, once)
+            ctx.viol("initialize-ran-initial-methods-that-are-not-this-simulators", {**where, "ran": h.initial_methods_run, "own": 1 if prog.get("initial") else 0})
             return
         nb = None
         if case.get("neighbour"):
